@@ -3,6 +3,7 @@ CONSTANTS
   MCTrees <- MCTreesQuick
   KeepFirstError = FALSE
   RecoverPerStage = FALSE
+  FirstErrorWins = TRUE
 SPECIFICATION MCSpec
 INVARIANTS AtMostOnce OnlyAfterAll ErrorReported
 PROPERTY Terminates
